@@ -96,3 +96,42 @@ func distinctBase(x, y uintptr) bool { return x != y || x == 0 }
 //@   ensures old(criteria.ModSeq) == nil && other.ModSeq != nil ==> criteria.ModSeq != nil && *criteria.ModSeq == *other.ModSeq
 //@   ensures old(criteria.ModSeq) != nil && other.ModSeq == nil ==> criteria.ModSeq == old(criteria.ModSeq)
 //@   ensures old(criteria.ModSeq) != nil && other.ModSeq != nil && old(criteria.ModSeq.MetadataName) == other.ModSeq.MetadataName && old(criteria.ModSeq.MetadataType) == other.ModSeq.MetadataType ==> criteria.ModSeq != nil && criteria.ModSeq.ModSeq >= old(criteria.ModSeq.ModSeq) && criteria.ModSeq.ModSeq >= other.ModSeq.ModSeq
+
+// ---------------------------------------------------------------------------
+// C18: capability implication rules used by the client's encoder.
+
+//@ pure
+func capIn(set CapSet, c Cap) bool {
+	_, ok := set[c]
+	return ok
+}
+
+// HasLiteralMinusSpec: LITERAL- is available — advertised directly, implied by
+// IMAP4rev2, or implied by LITERAL+.
+//
+//@ pure
+func HasLiteralMinusSpec(set CapSet) bool {
+	return capIn(set, CapLiteralMinus) || (capIn(set, CapIMAP4rev2) && capIn(imap4rev2Caps, CapLiteralMinus)) || capIn(set, CapLiteralPlus)
+}
+
+//@ pure
+func HasLiteralPlusSpec(set CapSet) bool {
+	return capIn(set, CapLiteralPlus) || (capIn(set, CapIMAP4rev2) && capIn(imap4rev2Caps, CapLiteralPlus))
+}
+
+//@ pure
+func HasIMAP4rev2Spec(set CapSet) bool {
+	return capIn(set, CapIMAP4rev2) || (capIn(set, CapIMAP4rev2) && capIn(imap4rev2Caps, CapIMAP4rev2))
+}
+
+//@ pure
+func HasUTF8AcceptSpec(set CapSet) bool {
+	return capIn(set, CapUTF8Accept) || (capIn(set, CapIMAP4rev2) && capIn(imap4rev2Caps, CapUTF8Accept)) || capIn(set, CapUTF8Only)
+}
+
+//@ func (set CapSet) Has(c Cap) (result bool)
+//@   props C18:post,pre@call
+//@   ensures c == CapLiteralMinus ==> result == HasLiteralMinusSpec(set)
+//@   ensures c == CapLiteralPlus ==> result == HasLiteralPlusSpec(set)
+//@   ensures c == CapIMAP4rev2 ==> result == HasIMAP4rev2Spec(set)
+//@   ensures c == CapUTF8Accept ==> result == HasUTF8AcceptSpec(set)
